@@ -2207,7 +2207,8 @@ Lemma cons_cell s ca tp :
     target_ok s' p /\ ~ live (hp s) p /\
     absv s' (VPtr p) = ALoc (LPair p) /\
     a_pair (abs s') p = Some (absv s (VPtr ca), absv s (VPtr tp)) /\
-    st s' = st s /\ stack s' = stack s /\ sp s' = sp s.
+    st s' = st s /\ stack s' = stack s /\ sp s' = sp s /\
+    heap_get (hp s') p = Ok (VPair ca tp).
 Proof.
   intros W Ta Tt.
   assert (Hn : new_cell_ok s (VPair ca tp)) by (split; assumption).
@@ -2216,7 +2217,7 @@ Proof.
   pose proof (fresh_pres _ _ _ _ F) as P.
   exists p, (with_heap s h').
   destruct F as (_ & Hnl & _ & _ & Hg & _).
-  refine (conj E (conj P (conj W' (conj T' (conj Hnl (conj _ (conj _ (conj eq_refl (conj eq_refl eq_refl))))))))).
+  refine (conj E (conj P (conj W' (conj T' (conj Hnl (conj _ (conj _ (conj eq_refl (conj eq_refl (conj eq_refl Hg)))))))))).
   - cbn [absv with_heap hp]. now rewrite Hg.
   - cbn [abs a_pair with_heap hp]. rewrite Hg. f_equal. f_equal.
     + apply (pres_absv s (with_heap s h') (VPtr ca) P Ta).
@@ -3002,4 +3003,470 @@ Proof.
     rewrite (bind_ok _ _ _ _ _ (pop_raw_top s2 a _ H2)). fold s3.
     rewrite (bind_ok _ _ _ _ _ E). reflexivity.
   - rewrite Hres. split; apply aequal_transfer; reflexivity.
+Qed.
+
+(* ==================================================================== append *)
+(* a chain of concrete pair cells: start address, the cells, their car addresses, and the
+   address the last cdr points to *)
+Inductive cchain (h : heap) : N -> list N -> list N -> N -> Prop :=
+| cc_nil : forall p, cchain h p [] [] p
+| cc_cons : forall p c d ps cs e,
+    heap_get h p = Ok (VPair c d) -> cchain h d ps cs e -> cchain h p (p :: ps) (c :: cs) e.
+
+Lemma cchain_len h p ps cs e : cchain h p ps cs e -> length ps = length cs.
+Proof. induction 1; cbn; auto. Qed.
+
+Lemma cchain_snoc h p ps cs t c e :
+  cchain h p ps cs t -> heap_get h t = Ok (VPair c e) -> cchain h p (ps ++ [t]) (cs ++ [c]) e.
+Proof.
+  intros Hc Ht. induction Hc as [p | p c0 d ps cs e0 Hp Hc IH]; cbn [app].
+  - econstructor; [exact Ht | constructor].
+  - econstructor; [exact Hp | now apply IH].
+Qed.
+
+Lemma cchain_app h p ps cs e ps' cs' e' :
+  cchain h p ps cs e -> cchain h e ps' cs' e' -> cchain h p (ps ++ ps') (cs ++ cs') e'.
+Proof.
+  intros Hc Hr. induction Hc as [p | p c0 d ps cs e0 Hp Hc IH]; cbn [app]; [exact Hr|].
+  econstructor; [exact Hp | now apply IH].
+Qed.
+
+Lemma cchain_stable h h' p ps cs e :
+  cchain h p ps cs e -> (forall q, In q ps -> heap_get h' q = heap_get h q) -> cchain h' p ps cs e.
+Proof.
+  intros Hc Hs. induction Hc as [p | p c0 d ps cs e0 Hp Hc IH]; [constructor|].
+  econstructor.
+  - rewrite Hs by (now left). exact Hp.
+  - apply IH. intros q Hq. apply Hs. now right.
+Qed.
+
+(* re-pointing the cdr of the last cell *)
+Lemma cchain_relink h h' p ps cs t c old new :
+  cchain h p (ps ++ [t]) (cs ++ [c]) old -> ~ In t ps -> length ps = length cs ->
+  (forall q, q <> t -> heap_get h' q = heap_get h q) -> heap_get h' t = Ok (VPair c new) ->
+  cchain h' p (ps ++ [t]) (cs ++ [c]) new.
+Proof.
+  revert p cs. induction ps as [|p0 ps IH]; intros p cs Hc Hni Hlen Ho Ht.
+  - destruct cs; [|discriminate]. cbn [app] in *.
+    inversion Hc as [| p1 c1 d1 ps1 cs1 e1 Hp1 Hc1]; subst.
+    econstructor; [exact Ht | constructor].
+  - destruct cs as [|c0 cs]; [discriminate|]. cbn [app] in *.
+    inversion Hc as [| p1 c1 d1 ps1 cs1 e1 Hp1 Hc1]; subst.
+    econstructor.
+    + rewrite Ho; [exact Hp1|]. intros ->. apply Hni. now left.
+    + apply IH; auto. intros Hin. apply Hni. now right.
+Qed.
+
+Lemma cchain_aprefix s p ps cs e :
+  cchain (hp s) p ps cs e ->
+  aprefix (abs s) (absv s (VPtr p)) ps (map (fun c => absv s (VPtr c)) cs) (absv s (VPtr e)).
+Proof.
+  intros Hc. induction Hc as [p | p c0 d ps cs e0 Hp Hc IH]; cbn [map]; [constructor|].
+  assert (Ep : absv s (VPtr p) = ALoc (LPair p)) by (cbn [absv]; now rewrite Hp).
+  rewrite Ep. econstructor; [|exact IH]. cbn [abs a_pair]. now rewrite Hp.
+Qed.
+
+(* mutating a cell that did not exist in [s] keeps every object of [s] *)
+Lemma pres_after_set s s1 t v h'' :
+  pres s s1 -> ~ live (hp s) t -> heap_set (hp s1) t v = Ok h'' -> pres s (with_heap s1 h'').
+Proof.
+  intros (A1 & A2 & A3 & A4) Hnl Hs.
+  destruct (heap_set_spec _ _ _ _ Hs) as (Hlt & Hlen & Hfl & Hch & Hgp & Hgo & Hco).
+  unfold pres; refine (conj _ (conj _ (conj A3 A4))); cbn [with_heap hp].
+  - intros q Hq. specialize (A1 q Hq). unfold live in *. rewrite Hlen, Hfl. exact A1.
+  - intros q Hq. rewrite Hgo; [now apply A2|]. intros ->. contradiction.
+Qed.
+
+Definition same_regs (s s' : vm) : Prop := st s' = st s /\ stack s' = stack s /\ sp s' = sp s.
+Lemma same_regs_refl s : same_regs s s. Proof. repeat split. Qed.
+Lemma same_regs_trans a b c : same_regs a b -> same_regs b c -> same_regs a c.
+Proof. intros (A1 & A2 & A3) (B1 & B2 & B3). repeat split; congruence. Qed.
+
+(* the state of clone_list after some iterations: the fresh chain h .. t ends in the
+   fresh cell holding (), nothing of the state [s0] at entry has been touched *)
+Definition clone_inv (s0 sk : vm) (h t nilp : N) (ps cs : list N) (c : N) : Prop :=
+  pres s0 sk /\ values_are_refs sk /\
+  cchain (hp sk) h (ps ++ [t]) (cs ++ [c]) nilp /\
+  NoDup (ps ++ [t]) /\
+  Forall (fun p => ~ live (hp s0) p /\ live (hp sk) p) (ps ++ [t]) /\
+  Forall (target_ok sk) (cs ++ [c]) /\
+  target_ok sk nilp /\ heap_get (hp sk) nilp = Ok VNil /\ ~ live (hp s0) nilp.
+
+Lemma NoDup_app_snoc {A} (l : list A) x : NoDup l -> ~ In x l -> NoDup (l ++ [x]).
+Proof.
+  induction l as [|y r IH]; intros Hnd Hni; cbn [app].
+  - constructor; [intros [] | constructor].
+  - inversion Hnd; subst. constructor.
+    + intros Hin. apply in_app_or in Hin. destruct Hin as [Hin|[->|[]]]; [contradiction|].
+      apply Hni. now left.
+    + apply IH; auto. intros Hin. apply Hni. now right.
+Qed.
+
+Lemma cchain_last h p ps cs t c e :
+  cchain h p (ps ++ [t]) (cs ++ [c]) e -> length ps = length cs -> heap_get h t = Ok (VPair c e).
+Proof.
+  revert p cs. induction ps as [|p0 ps IH]; intros p cs Hc Hlen.
+  - destruct cs; [|discriminate]. cbn [app] in Hc. inversion Hc as [| ? ? ? ? ? ? Hp Hr]; subst.
+    inversion Hr; subst. exact Hp.
+  - destruct cs as [|c0 cs]; [discriminate|]. cbn [app] in Hc. inversion Hc as [| ? ? ? ? ? ? Hp Hr]; subst.
+    eapply IH; eauto.
+Qed.
+
+Lemma clone_step s0 sk h t nilp ps cs c a :
+  clone_inv s0 sk h t nilp ps cs c -> length ps = length cs -> target_ok sk a ->
+  exists p s1 h'', hput (VPair a nilp) sk = ROk (VPtr p) s1 /\
+    heap_deref (hp s1) (VPtr t) = Ok (VPair c nilp) /\
+    heap_set (hp s1) t (VPair c p) = Ok h'' /\
+    same_regs sk s1 /\
+    clone_inv s0 (with_heap s1 h'') h p nilp (ps ++ [t]) (cs ++ [c]) a.
+Proof.
+  intros (P0 & W & Hcc & Hnd & Hfl & Htg & Tn & Hgn & Hnn) Hlen Ta.
+  destruct (cons_cell sk a nilp W Ta Tn) as (p & s1 & E1 & P1 & W1 & T1 & Hnl1 & Ap1 & Hp1 & Hx1a & Hx1b & Hx1c & Ecell).
+  assert (Hx1 : same_regs sk s1) by (repeat split; assumption).
+  pose proof (cchain_last _ _ _ _ _ _ _ Hcc Hlen) as Hgt.
+  assert (Hlt : live (hp sk) t).
+  { rewrite Forall_forall in Hfl. apply Hfl. apply in_or_app. right. now left. }
+  pose proof P1 as (Q1 & Q2 & _).
+  assert (Hgt1 : heap_get (hp s1) t = Ok (VPair c nilp)) by (rewrite Q2 by assumption; exact Hgt).
+  destruct (heap_set_ok (hp s1) t (VPair c p) (heap_get_lt _ _ _ Hgt1)) as (h'' & Hs).
+  exists p, s1, h''. refine (conj E1 (conj Hgt1 (conj Hs (conj Hx1 _)))).
+  destruct (heap_set_spec _ _ _ _ Hs) as (Hlt' & Hlen' & Hfl' & Hch' & Hgp & Hgo & Hco).
+  assert (Tc1 : target_ok s1 c).
+  { eapply pres_target_ok; [exact P1|]. rewrite Forall_forall in Htg. apply Htg. apply in_or_app. right. now left. }
+  destruct (set_pair_fields s1 t c nilp c p h'' W1 Hgt1 Tc1 T1 Hs) as (W2 & Habsv & Hval & _).
+  assert (Hnlt : ~ live (hp s0) t).
+  { rewrite Forall_forall in Hfl. apply (Hfl t). apply in_or_app. right. now left. }
+  assert (Hpne : p <> t) by (intros ->; contradiction).
+  assert (Hlive2 : forall q, live (hp s1) q -> live h'' q).
+  { intros q. unfold live. now rewrite Hlen', Hfl'. }
+  unfold clone_inv. refine (conj _ (conj W2 (conj _ (conj _ (conj _ (conj _ (conj _ (conj _ Hnn)))))))).
+  - eapply pres_after_set; [|exact Hnlt | exact Hs]. eapply pres_trans; eauto.
+  - cbn [with_heap hp].
+    assert (Hni : ~ In t ps).
+    { apply NoDup_remove_2 in Hnd. rewrite app_nil_r in Hnd. exact Hnd. }
+    eapply cchain_snoc.
+    + eapply (cchain_relink (hp s1)); [| exact Hni | exact Hlen | exact Hgo | exact Hgp].
+      eapply cchain_stable; [exact Hcc|]. intros q Hq. apply Q2.
+      rewrite Forall_forall in Hfl. exact (proj2 (Hfl q Hq)).
+    + rewrite Hgo by assumption. exact Ecell.
+  - apply NoDup_app_snoc; [exact Hnd|].
+    intros Hin. rewrite Forall_forall in Hfl. apply Hnl1. exact (proj2 (Hfl p Hin)).
+  - apply Forall_app. split.
+    + eapply Forall_impl; [|exact Hfl]. intros q (Hq0 & Hq). split; [exact Hq0|]. cbn [with_heap hp]. auto.
+    + constructor; [|constructor]. split.
+      * intros Hl0. apply Hnl1. destruct P0 as (R1 & _). auto.
+      * cbn [with_heap hp]. apply Hlive2. exact (proj1 T1).
+  - apply Forall_app. split.
+    + eapply Forall_impl; [|exact Htg]. intros q Hq.
+      apply (Hval (VPtr q)). eapply pres_target_ok; eauto.
+    + constructor; [|constructor]. apply (Hval (VPtr a)). eapply pres_target_ok; eauto.
+  - apply (Hval (VPtr nilp)). eapply pres_target_ok; eauto.
+  - cbn [with_heap hp]. rewrite Hgo.
+    + rewrite Q2 by (exact (proj1 Tn)). exact Hgn.
+    + intros ->. rewrite Hgt in Hgn. discriminate.
+Qed.
+
+Lemma hset_ok s p v h'' : heap_set (hp s) p v = Ok h'' -> hset p v s = ROk tt (with_heap s h'').
+Proof. intros H. unfold hset. now rewrite H. Qed.
+
+Lemma clone_loop_spec fuel lst s0 cells : forall sk a d e h t nilp ps cs c f,
+  values_are_refs s0 -> pchain (hp s0) (VPtr d) cells e -> target_ok s0 a -> target_ok s0 d ->
+  clone_inv s0 sk h t nilp ps cs c -> length ps = length cs -> (length cells + 1 < f)%nat ->
+  forall ce, heap_deref (hp s0) e = Ok ce ->
+  if is_nil ce then
+    exists t' s' ps' cs' c',
+      clone_loop fuel f lst (VPair a d) (VPtr h) (VPtr t) nilp sk = ROk (VPtr h, VPtr t') s' /\
+      clone_inv s0 s' h t' nilp ps' cs' c' /\ length ps' = length cs' /\
+      cs' ++ [c'] = (cs ++ [c]) ++ a :: map fst cells /\ same_regs sk s'
+  else render_fail (clone_loop fuel f lst (VPair a d) (VPtr h) (VPtr t) nilp sk).
+Proof.
+  induction cells as [|[a2 d2] cells IH]; intros sk a d e h t nilp ps cs c f W0 Hpc Ta Td Inv Hlen Hf ce Hce.
+  - destruct f as [|f]; [cbn in Hf; lia|].
+    pose proof Inv as (P0 & _).
+    destruct (clone_step s0 sk h t nilp ps cs c a Inv Hlen (pres_target_ok _ _ _ P0 Ta))
+      as (p & s1 & h'' & E1 & Hdt & Hs & Hx1 & Inv2).
+    set (s2 := with_heap s1 h'') in *.
+    pose proof Inv2 as (P2 & _).
+    inversion Hpc as [v0 c0 Hd0 Hp0 |]; subst.
+    rewrite Hd0 in Hce. injection Hce as <-.
+    assert (Hd2 : heap_deref (hp s2) (VPtr d) = Ok c0) by (rewrite (pres_deref s0 s2 (VPtr d) P2 Td); exact Hd0).
+    assert (Hstep : clone_loop fuel (S f) lst (VPair a d) (VPtr h) (VPtr t) nilp sk =
+                    if is_nil c0 then ROk (VPtr h, VPtr p) s2 else fail_cell fuel lst s2).
+    { cbn [clone_loop as_car as_cdr as_ptr is_nil bindM ret]. rewrite (bind_ok _ _ _ _ _ E1).
+      cbn [bindM ret].
+      assert (Htail : (dom last_pair <- hderef (VPtr t); dom lca <- as_car last_pair; dom lcap <- as_ptr lca;
+                       dom pp <- as_ptr (VPtr p); dom tp <- ret t; dom _ <- hset tp (VPair lcap pp); ret (VPtr p)) s1
+                      = ROk (VPtr p) s2).
+      { rewrite (bind_ok _ _ _ _ _ (hderef_ok s1 _ _ Hdt)).
+        cbn [as_car as_ptr bindM ret]. rewrite (bind_ok _ _ _ _ _ (hset_ok s1 _ _ _ Hs)). reflexivity. }
+      rewrite (bind_ok _ _ _ _ _ Htail).
+      cbn [bindM ret]. rewrite (bind_ok _ _ _ _ _ (hderef_ok s2 _ _ Hd2)).
+      rewrite Hp0. destruct (is_nil c0); reflexivity. }
+    rewrite Hstep. destruct (is_nil c0); [|apply fail_cell_render_fail].
+    exists p, s2, (ps ++ [t]), (cs ++ [c]), a.
+    refine (conj eq_refl (conj Inv2 (conj _ (conj _ _)))).
+    + rewrite !app_length. cbn. lia.
+    + reflexivity.
+    + exact Hx1.
+  - destruct f as [|f]; [cbn in Hf; lia|].
+    pose proof Inv as (P0 & _).
+    destruct (clone_step s0 sk h t nilp ps cs c a Inv Hlen (pres_target_ok _ _ _ P0 Ta))
+      as (p & s1 & h'' & E1 & Hdt & Hs & Hx1 & Inv2).
+    set (s2 := with_heap s1 h'') in *.
+    pose proof Inv2 as (P2 & _).
+    inversion Hpc as [| v0 a0 d0 cells0 e0 Hd0 Hc0]; subst.
+    assert (Hd2 : heap_deref (hp s2) (VPtr d) = Ok (VPair a2 d2)) by (rewrite (pres_deref s0 s2 (VPtr d) P2 Td); exact Hd0).
+    pose proof W0 as (_ & Hpairs & _). cbn [heap_deref] in Hd0. destruct (Hpairs _ _ _ Hd0) as (Ta2 & Td2).
+    assert (Hstep : clone_loop fuel (S f) lst (VPair a d) (VPtr h) (VPtr t) nilp sk =
+                    clone_loop fuel f lst (VPair a2 d2) (VPtr h) (VPtr p) nilp s2).
+    { cbn [clone_loop as_car as_cdr as_ptr is_nil bindM ret]. rewrite (bind_ok _ _ _ _ _ E1).
+      cbn [bindM ret].
+      assert (Htail : (dom last_pair <- hderef (VPtr t); dom lca <- as_car last_pair; dom lcap <- as_ptr lca;
+                       dom pp <- as_ptr (VPtr p); dom tp <- ret t; dom _ <- hset tp (VPair lcap pp); ret (VPtr p)) s1
+                      = ROk (VPtr p) s2).
+      { rewrite (bind_ok _ _ _ _ _ (hderef_ok s1 _ _ Hdt)).
+        cbn [as_car as_ptr bindM ret]. rewrite (bind_ok _ _ _ _ _ (hset_ok s1 _ _ _ Hs)). reflexivity. }
+      rewrite (bind_ok _ _ _ _ _ Htail).
+      cbn [bindM ret]. rewrite (bind_ok _ _ _ _ _ (hderef_ok s2 _ _ Hd2)). reflexivity. }
+    rewrite Hstep. cbn [length] in Hf.
+    assert (Hlen2 : length (ps ++ [t]) = length (cs ++ [c])) by (rewrite !app_length; cbn; lia).
+    pose proof (IH s2 a2 d2 e h p nilp (ps ++ [t]) (cs ++ [c]) a f W0 Hc0 Ta2 Td2 Inv2 Hlen2 ltac:(lia) ce Hce) as R.
+    destruct (is_nil ce); [|exact R].
+    destruct R as (t' & s' & ps' & cs' & c' & E & Inv' & Hl' & Hcs' & Hst').
+    exists t', s', ps', cs', c'. refine (conj E (conj Inv' (conj Hl' (conj _ _)))).
+    + rewrite Hcs'. cbn [map fst]. rewrite <- !app_assoc. reflexivity.
+    + eapply same_regs_trans; [|exact Hst']. exact Hx1.
+Qed.
+
+Lemma clone_list_spec fuel s0 a d cells e :
+  values_are_refs s0 -> pchain (hp s0) (VPtr d) cells e -> target_ok s0 a -> target_ok s0 d ->
+  (length cells + 2 < fuel)%nat ->
+  forall ce, heap_deref (hp s0) e = Ok ce ->
+  if is_nil ce then
+    exists h t nilp s' ps cs c,
+      clone_list fuel (VPair a d) s0 = ROk (VPtr h, VPtr t) s' /\
+      clone_inv s0 s' h t nilp ps cs c /\ length ps = length cs /\
+      cs ++ [c] = a :: map fst cells /\ same_regs s0 s'
+  else render_fail (clone_list fuel (VPair a d) s0).
+Proof.
+  intros W0 Hpc Ta Td Hf ce Hce.
+  (* the cell holding () *)
+  assert (Hnilc : new_cell_ok s0 VNil) by exact I.
+  destruct (hput_new s0 VNil W0 Hnilc) as (nilp & hA & EA & FA).
+  destruct (fresh_wf s0 VNil nilp hA W0 Hnilc FA) as (WA & TnA).
+  pose proof (fresh_pres _ _ _ _ FA) as PA.
+  set (sA := with_heap s0 hA) in *.
+  destruct (cons_cell sA a nilp WA (pres_target_ok _ _ _ PA Ta) TnA)
+    as (p & sB & EB & PB & WB & TB & HnlB & ApB & HpB & HxB1 & HxB2 & HxB3 & Ecell).
+  assert (P0B : pres s0 sB) by (eapply pres_trans; eauto).
+  assert (HregB : same_regs s0 sB) by (repeat split; assumption).
+  assert (Inv : clone_inv s0 sB p p nilp [] [] a).
+  { unfold clone_inv. cbn [app].
+    destruct FA as (_ & HnlA & HliveA & _ & HgA & _).
+    refine (conj P0B (conj WB (conj _ (conj _ (conj _ (conj _ (conj _ (conj _ HnlA)))))))).
+    - econstructor; [exact Ecell | constructor].
+    - constructor; [intros [] | constructor].
+    - constructor; [|constructor]. split; [|exact (proj1 TB)].
+      intros Hl. apply HnlB. destruct PA as (Q & _). auto.
+    - constructor; [|constructor]. exact (pres_target_ok s0 sB a P0B Ta).
+    - exact (pres_target_ok sA sB nilp PB TnA).
+    - destruct PB as (_ & Q2 & _). rewrite Q2 by (exact (proj1 TnA)). exact HgA. }
+  assert (Hd2 : heap_deref (hp sB) (VPtr d) = heap_deref (hp s0) (VPtr d)) by (apply (pres_deref s0 sB (VPtr d) P0B Td)).
+  destruct fuel as [|f]; [lia|].
+  assert (Hrun : clone_list (S f) (VPair a d) s0 =
+     (dom rest' <- hderef (VPtr d);
+      if is_pair rest' then clone_loop (S f) f (VPair a d) rest' (VPtr p) (VPtr p) nilp
+      else if is_nil rest' then ret (VPtr p, VPtr p) else fail_cell (S f) (VPair a d)) sB).
+  { unfold clone_list. cbn [is_pair negb]. rewrite (bind_ok _ _ _ _ _ EA). fold sA.
+    cbn [as_ptr bindM ret clone_loop as_car as_cdr is_nil]. rewrite (bind_ok _ _ _ _ _ EB). reflexivity. }
+  rewrite Hrun.
+  inversion Hpc as [v0 c0 Hd0 Hp0 | v0 a2 d2 cells0 e0 Hd0 Hc0]; subst.
+  - rewrite Hd0 in Hce. injection Hce as <-.
+    rewrite (bind_ok _ _ _ _ _ (hderef_ok sB _ _ (eq_trans Hd2 Hd0))). rewrite Hp0.
+    destruct (is_nil c0); [|apply fail_cell_render_fail].
+    exists p, p, nilp, sB, [], [], a. refine (conj eq_refl (conj Inv (conj eq_refl (conj eq_refl HregB)))).
+  - rewrite (bind_ok _ _ _ _ _ (hderef_ok sB _ _ (eq_trans Hd2 Hd0))). cbn [is_pair].
+    pose proof W0 as (_ & Hpairs & _). cbn [heap_deref] in Hd0. destruct (Hpairs _ _ _ Hd0) as (Ta2 & Td2).
+    cbn [length] in Hf.
+    pose proof (clone_loop_spec (S f) (VPair a d) s0 cells0 sB a2 d2 e p p nilp [] [] a f W0 Hc0 Ta2 Td2 Inv eq_refl
+                  ltac:(lia) ce Hce) as R.
+    destruct (is_nil ce); [|exact R].
+    destruct R as (t' & s' & ps' & cs' & c' & E & Inv' & Hl' & Hcs' & Hreg').
+    exists p, t', nilp, s', ps', cs', c'. refine (conj E (conj Inv' (conj Hl' (conj _ _)))).
+    + rewrite Hcs'. reflexivity.
+    + eapply same_regs_trans; eauto.
+Qed.
+
+Lemma cchain_head_ok s p ps cs e :
+  cchain (hp s) p ps cs e -> ps <> [] -> live (hp s) p -> target_ok s p.
+Proof.
+  intros Hc Hne Hl. destruct Hc as [|p c d ps cs e Hp Hc]; [contradiction|].
+  split; [exact Hl|]. exists (VPair c d). split; [exact Hp | exact I].
+Qed.
+
+Lemma append_loop_spec fuel s0 : forall rl xss,
+  Forall2 (fun l xs => val_ok s0 l /\ achain (abs s0) (absv s0 l) xs (AImm VNil) /\
+                       (length xs + 2 < fuel)%nat) rl xss ->
+  forall sk tl locs cars lastp,
+  values_are_refs s0 -> pres s0 sk -> values_are_refs sk ->
+  stack_top (stack sk) (sp sk) rl -> target_ok sk tl ->
+  cchain (hp sk) tl locs cars lastp ->
+  Forall (fun p => ~ live (hp s0) p /\ live (hp sk) p) locs -> Forall (target_ok s0) cars ->
+  exists r s' locs' cars',
+    append_loop fuel (length rl) (VPtr tl) sk = ROk (VPtr r) s' /\
+    pres s0 s' /\ values_are_refs s' /\ target_ok s' r /\
+    cchain (hp s') r (locs' ++ locs) (cars' ++ cars) lastp /\
+    Forall (fun p => ~ live (hp s0) p /\ live (hp s') p) (locs' ++ locs) /\
+    Forall (target_ok s0) cars' /\
+    map (fun c => absv s0 (VPtr c)) cars' = concat (rev xss).
+Proof.
+  intros rl xss HF. induction HF as [|l xs rl xss (Hvl & Hch & Hfuel) HF IH];
+    intros sk tl locs cars lastp W0 P0 Wk Hst Ttl Hacc Hfresh Hcars.
+  - exists tl, sk, [], []. cbn [length append_loop app map rev concat].
+    refine (conj eq_refl (conj P0 (conj Wk (conj Ttl (conj Hacc (conj Hfresh (conj _ eq_refl))))))). constructor.
+  - cbn [length append_loop].
+    set (sk1 := with_sp sk (sp sk - 1)).
+    pose proof (stack_top_tail _ _ _ _ Hst) as Hst1.
+    destruct (achain_pchain s0 W0 _ _ _ Hch l Hvl eq_refl) as (cells & e' & Hpc & Hm & He & Hve).
+    destruct (pchain_end_deref _ _ _ _ Hpc) as (ce & Hce & Hpe).
+    assert (Ece : ce = VNil) by (apply (nil_deref s0 e' ce Hve Hce); exact He). subst ce.
+    assert (Hpop : pop_value sk = lift (heap_deref (hp s0) l) sk1).
+    { rewrite (pop_value_top sk l rl Hst). fold sk1. f_equal. apply (pres_deref s0 sk l P0 Hvl). }
+    unfold bindM at 1. rewrite Hpop.
+    inversion Hpc as [v0 c0 Hd0 Hp0 | v0 a d cells0 e0 Hd0 Hc0]; subst.
+    + (* the empty list: skipped *)
+      rewrite Hd0 in Hce. injection Hce as ->. rewrite Hd0. unfold lift.
+      destruct (IH sk1 tl locs cars lastp W0 P0 Wk Hst1 Ttl Hacc Hfresh Hcars)
+        as (r & s' & locs' & cars' & E & R1 & R2 & R3 & R4 & R5 & R6 & R7).
+      exists r, s', locs', cars'. refine (conj E (conj R1 (conj R2 (conj R3 (conj R4 (conj R5 (conj R6 _))))))).
+      cbn [map rev]. rewrite concat_app. cbn [concat]. rewrite !app_nil_r. exact R7.
+    + (* a pair: copied, linked in front of the accumulated list *)
+      rewrite Hd0. unfold lift.
+      pose proof W0 as (_ & Hpairs0 & _).
+      assert (Hg0 : exists pl, l = VPtr pl /\ heap_get (hp s0) pl = Ok (VPair a d)).
+      { destruct l; cbn [val_ok] in Hvl; try contradiction; cbn [heap_deref] in Hd0; try discriminate. eauto. }
+      destruct Hg0 as (pl & -> & Hg0). destruct (Hpairs0 _ _ _ Hg0) as (Ta0 & Td0).
+      assert (Hpck : pchain (hp sk1) (VPtr d) cells0 e') by exact (pchain_pres s0 sk (VPtr d) cells0 e' W0 P0 Td0 Hc0).
+      assert (Hcek : heap_deref (hp sk1) e' = Ok VNil) by (change (hp sk1) with (hp sk); rewrite (pres_deref s0 sk e' P0 Hve); exact Hce).
+      cbn [map length] in Hfuel. rewrite map_length in Hfuel.
+      pose proof (clone_list_spec fuel sk1 a d cells0 e' Wk Hpck (pres_target_ok _ _ _ P0 Ta0) (pres_target_ok _ _ _ P0 Td0)
+                    ltac:(lia) VNil Hcek) as R. cbn [is_nil] in R.
+      destruct R as (h & t & nilp & s2 & ps & cs & c & Ecl & Inv & Hlen & Hcs & Hreg).
+      destruct Inv as (P12 & W2 & Hcc2 & Hnd2 & Hfl2 & Htg2 & Tn2 & Hgn2 & Hnn2).
+      pose proof (cchain_last _ _ _ _ _ _ _ Hcc2 Hlen) as Hgt2.
+      destruct (heap_set_ok (hp s2) t (VPair c tl) (heap_get_lt _ _ _ Hgt2)) as (h'' & Hs).
+      destruct (heap_set_spec _ _ _ _ Hs) as (Hlt' & Hlen' & Hfl' & Hch' & Hgp & Hgo & Hco).
+      assert (Tc2 : target_ok s2 c).
+      { rewrite Forall_forall in Htg2. apply Htg2. apply in_or_app. right. now left. }
+      assert (Ttl2 : target_ok s2 tl) by exact (pres_target_ok sk1 s2 tl P12 Ttl).
+      destruct (set_pair_fields s2 t c nilp c tl h'' W2 Hgt2 Tc2 Ttl2 Hs) as (W3 & Habsv & Hval & _).
+      set (s3 := with_heap s2 h'') in *.
+      assert (Hnlt : ~ live (hp sk1) t /\ live (hp s2) t).
+      { rewrite Forall_forall in Hfl2. apply (Hfl2 t). apply in_or_app. right. now left. }
+      assert (P13 : pres sk1 s3) by exact (pres_after_set sk1 s2 t _ h'' P12 (proj1 Hnlt) Hs).
+      assert (P03 : pres s0 s3) by (eapply pres_trans; [exact P0 | exact P13]).
+      assert (Hlive3 : forall q, live (hp s2) q -> live (hp s3) q).
+      { intros q. unfold live. cbn [s3 with_heap hp]. now rewrite Hlen', Hfl'. }
+      (* the new chain, linked to the accumulated one *)
+      assert (Hni : ~ In t ps).
+      { apply NoDup_remove_2 in Hnd2. rewrite app_nil_r in Hnd2. exact Hnd2. }
+      assert (Hnew : cchain (hp s3) h (ps ++ [t]) (cs ++ [c]) tl).
+      { eapply (cchain_relink (hp s2)); [exact Hcc2 | exact Hni | exact Hlen | exact Hgo | exact Hgp]. }
+      assert (Hold : cchain (hp s3) tl locs cars lastp).
+      { eapply cchain_stable; [exact Hacc|]. intros q Hq.
+        destruct P13 as (_ & Q2 & _). apply Q2. rewrite Forall_forall in Hfresh. exact (proj2 (Hfresh q Hq)). }
+      pose proof (cchain_app _ _ _ _ _ _ _ _ Hnew Hold) as Hall.
+      assert (Hfresh3 : Forall (fun p => ~ live (hp s0) p /\ live (hp s3) p) ((ps ++ [t]) ++ locs)).
+      { apply Forall_app. split.
+        - eapply Forall_impl; [|exact Hfl2]. intros q (Hq1 & Hq2). split; [|auto].
+          intros Hl0. apply Hq1. destruct P0 as (Q & _). exact (Q q Hl0).
+        - eapply Forall_impl; [|exact Hfresh]. intros q (Hq1 & Hq2). split; [exact Hq1|].
+          destruct P13 as (Q & _). exact (Q q Hq2). }
+      assert (Th3 : target_ok s3 h).
+      { eapply cchain_head_ok; [exact Hnew | destruct ps; discriminate |].
+        rewrite Forall_forall in Hfresh3. apply (Hfresh3 h).
+        apply in_or_app. left. destruct ps; cbn [app] in *.
+        - inversion Hnew; subst. now left.
+        - inversion Hnew; subst. now left. }
+      destruct (pchain_cells_ok s0 (VPtr d) cells0 e' W0 Td0 Hc0) as (Hcells & _).
+      assert (Hcars3 : Forall (target_ok s0) ((cs ++ [c]) ++ cars)).
+      { apply Forall_app. split; [|exact Hcars]. rewrite Hcs. constructor; [exact Ta0|].
+        apply Forall_forall. intros q Hq. apply in_map_iff in Hq. destruct Hq as (ad & <- & Hin).
+        rewrite Forall_forall in Hcells. exact (proj1 (Hcells ad Hin)). }
+      assert (Hst3 : stack_top (stack s3) (sp s3) rl).
+      { destruct Hreg as (_ & R2 & R3). cbn [s3 with_heap stack sp]. rewrite R2, R3. exact Hst1. }
+      destruct (IH s3 h ((ps ++ [t]) ++ locs) ((cs ++ [c]) ++ cars) lastp W0 P03 W3 Hst3 Th3 Hall Hfresh3 Hcars3)
+        as (r & s' & locs' & cars' & E & R1 & R2 & R3 & R4 & R5 & R6 & R7).
+      exists r, s', (locs' ++ (ps ++ [t])), (cars' ++ (cs ++ [c])).
+      refine (conj _ (conj R1 (conj R2 (conj R3 (conj _ (conj _ (conj _ _))))))).
+      * rewrite (bind_ok _ _ _ _ _ Ecl).
+        rewrite (bind_ok _ _ _ _ _ (hderef_ok s2 (VPtr t) _ Hgt2)).
+        cbn [as_car as_ptr bindM ret]. rewrite (bind_ok _ _ _ _ _ (hset_ok s2 _ _ _ Hs)). exact E.
+      * rewrite <- !app_assoc. rewrite <- !app_assoc in R4. exact R4.
+      * rewrite <- !app_assoc. rewrite <- !app_assoc in R5. exact R5.
+      * apply Forall_app. split; [exact R6|]. apply Forall_app in Hcars3. exact (proj1 Hcars3).
+      * rewrite map_app, R7. cbn [rev]. rewrite concat_app. cbn [concat]. rewrite app_nil_r. f_equal.
+        rewrite Hcs. cbn [map fst]. f_equal. rewrite map_map. reflexivity.
+Qed.
+
+Lemma Forall2_rev {A B} (R : A -> B -> Prop) l1 l2 : Forall2 R l1 l2 -> Forall2 R (rev l1) (rev l2).
+Proof.
+  induction 1 as [|x y l1 l2 Hxy HF IH]; cbn [rev]; [constructor|].
+  apply Forall2_app; [exact IH | constructor; [exact Hxy | constructor]].
+Qed.
+
+(* append: a newly allocated list with the elements of all arguments but the last,
+   sharing its tail with the last argument; nothing that existed before changes *)
+Theorem append_refines fuel s lists last xss :
+  values_are_refs s -> Forall (val_ok s) lists -> val_ok s last ->
+  called_with s (lists ++ [last]) ->
+  Forall2 (fun l xs => achain (abs s) (absv s l) xs (AImm VNil) /\ (length xs + 2 < fuel)%nat) lists xss ->
+  exists r s' locs, call_builtin (append fuel) s = ROk r s' /\
+    aprefix (abs s') (absv s' r) locs (concat xss) (absv s last) /\ fresh_in s locs /\
+    pres s s' /\ values_are_refs s' /\ val_ok s' r.
+Proof.
+  intros W Hlists Hlast H HF. unfold called_with in H.
+  rewrite rev_app_distr in H. cbn [rev app] in H.
+  set (s1 := with_sp s (sp s - 1)).
+  set (s2 := with_sp s1 (sp s1 - 1)).
+  pose proof (stack_top_tail _ _ _ _ H) as H1.
+  pose proof (stack_top_tail _ _ _ _ H1) as H2.
+  destruct (hput_val s2 last W Hlast) as (lastp & s3 & E3 & P3 & W3 & T3 & A3 & Hst3 & Hsp3 & Hx3).
+  assert (Hlen : len (lists ++ [last]) = N.of_nat (length lists) + 1).
+  { unfold len. rewrite app_length. cbn [length]. lia. }
+  (* the lists, as seen from s3, in the order in which they are popped *)
+  assert (HF3 : Forall2 (fun l xs => val_ok s3 l /\ achain (abs s3) (absv s3 l) xs (AImm VNil) /\
+                                    (length xs + 2 < fuel)%nat) (rev lists) (rev xss)).
+  { apply Forall2_rev. clear - HF Hlists W P3.
+    induction HF as [|l xs ls xss (Hc & Hf) HF IH]; [constructor|].
+    inversion Hlists; subst. constructor; [|now apply IH].
+    refine (conj (pres_val_ok s s3 l P3 ltac:(assumption)) (conj _ Hf)).
+    rewrite (pres_absv s s3 l P3) by assumption. eapply achain_pres; eauto. }
+  assert (Hst : stack_top (stack s3) (sp s3) (rev lists)) by (rewrite Hst3, Hsp3; exact H2).
+  destruct (append_loop_spec fuel s3 (rev lists) (rev xss) HF3 s3 lastp [] [] lastp W3 (pres_refl s3) W3 Hst T3
+              (cc_nil _ _) (Forall_nil _) (Forall_nil _))
+    as (r & s' & locs & cars & E & R1 & R2 & R3 & R4 & R5 & R6 & R7).
+  rewrite !app_nil_r in R4. rewrite !app_nil_r in R5. rewrite rev_involutive in R7.
+  assert (P : pres s s') by (eapply pres_trans; [exact P3 | exact R1]).
+  exists (VPtr r), s', locs. refine (conj _ (conj _ (conj _ (conj P (conj R2 R3))))).
+  - assert (Hrun : append fuel s = ROk (VPtr r) s').
+    { unfold append.
+      assert (Hp : pop_argc 0 None s = ROk (len (lists ++ [last])) s1).
+      { rewrite (pop_argc_top _ _ _ _ _ H). rewrite (proj2 (N.ltb_ge _ 0) (N.le_0_l _)). reflexivity. }
+      rewrite (bind_ok _ _ _ _ _ Hp). rewrite Hlen.
+      assert (E0 : (N.of_nat (length lists) + 1 =? 0) = false) by (apply N.eqb_neq; lia). rewrite E0.
+      rewrite (bind_ok _ _ _ _ _ (pop_raw_top s1 last _ H1)). fold s2.
+      rewrite (bind_ok _ _ _ _ _ E3).
+      rewrite (bind_ok _ _ _ _ _ (usub_ok (N.of_nat (length lists) + 1) 1 s3 ltac:(lia))).
+      replace (N.to_nat (N.of_nat (length lists) + 1 - 1)) with (length (rev lists)) by (rewrite rev_length; lia).
+      exact E. }
+    unfold call_builtin. rewrite (bind_ok _ _ _ _ _ Hrun). reflexivity.
+  - pose proof (cchain_aprefix s' r locs cars lastp R4) as Hap.
+    assert (Em : map (fun c => absv s' (VPtr c)) cars = concat xss).
+    { rewrite <- R7. apply map_ext_in. intros c Hc. rewrite Forall_forall in R6.
+      apply (pres_absv s3 s' (VPtr c) R1). exact (R6 c Hc). }
+    rewrite Em in Hap.
+    rewrite (pres_absv s3 s' (VPtr lastp) R1 T3), A3 in Hap. exact Hap.
+  - unfold fresh_in. eapply Forall_impl; [|exact R5]. intros p (Hp1 & _) Hl.
+    apply Hp1. destruct P3 as (Q & _). exact (Q p Hl).
 Qed.
